@@ -4,7 +4,11 @@ import (
 	"fmt"
 	"math/big"
 
+	cklt "github.com/tuneinsight/lattigo/v6/circuits/ckks/lintrans"
+	ckpoly "github.com/tuneinsight/lattigo/v6/circuits/ckks/polynomial"
+	"github.com/tuneinsight/lattigo/v6/core/rgsw"
 	"github.com/tuneinsight/lattigo/v6/core/rlwe"
+	"github.com/tuneinsight/lattigo/v6/utils/bignum"
 	"github.com/tuneinsight/lattigo/v6/ring"
 	"github.com/tuneinsight/lattigo/v6/schemes/bgv"
 	"github.com/tuneinsight/lattigo/v6/schemes/ckks"
@@ -37,6 +41,15 @@ func degSame(d0, _ int) int { return d0 }
 func degOne(_, _ int) int   { return 1 }
 
 var c09Rotations = []int{1, 2, 3, 4, 8, -1, -2}
+
+// c09Sys bundles the long-lived objects of one side (system or twin): the scheme
+// evaluator and the evaluators built on top of it. The scratch poisoner walks all of it.
+type c09Sys struct {
+	ev   any
+	rg   *rgsw.Evaluator
+	lt   *cklt.Evaluator
+	poly *ckpoly.Evaluator
+}
 
 // --- integer scheme -----------------------------------------------------------------
 
@@ -96,10 +109,25 @@ func c09BGV(ctx *core.RunCtx, scaleInvariant bool) *c09Scheme {
 		name = "bfv"
 	}
 	sc := &c09Scheme{name: name, params: bp.Parameters}
-	sc.newEval = func() any { return bgv.NewEvaluator(bp, cc.evk, scaleInvariant) }
+	sc.newEval = func() any {
+		return &c09Sys{ev: bgv.NewEvaluator(bp, cc.evk, scaleInvariant), rg: rgsw.NewEvaluator(bp.Parameters, cc.evk)}
+	}
 	sc.newCt = func(deg, level int) *rlwe.Ciphertext { return bgv.NewCiphertext(bp, deg, level) }
 	sc.keyHash = func() uint64 { return hashKeySet(cc.evk) }
 	sc.newScale = func(g *core.Xoshiro) rlwe.Scale { return bp.NewScale(1 + g.Next()%1000) }
+	// rgsw ciphertexts for the external product (read-only inputs)
+	rgswEnc := rgsw.NewEncryptor(bp.Parameters, cc.sk)
+	rgswCt := func(g *core.Xoshiro) *rgsw.Ciphertext {
+		pt := rlwe.NewPlaintext(bp.Parameters, bp.MaxLevel())
+		pt.IsNTT = true
+		catalog.FillPoly(bp.RingQ(), pt.Value, g)
+		c := rgsw.NewCiphertext(bp.Parameters, bp.MaxLevel(), bp.MaxLevelP(), 0)
+		if err := rgswEnc.Encrypt(pt, c); err != nil {
+			ctx.Harness("rgsw encrypt: %v", err)
+		}
+		return c
+	}
+	var rgswPool []*rgsw.Ciphertext
 	randVec := func(g *core.Xoshiro) []uint64 {
 		v := make([]uint64, bp.MaxSlots())
 		for i := range v {
@@ -123,6 +151,11 @@ func c09BGV(ctx *core.RunCtx, scaleInvariant bool) *c09Scheme {
 	}
 	sc.gen = func(g *core.Xoshiro, kind, level int, of *rlwe.Ciphertext) any {
 		switch kind {
+		case vRGSW:
+			if len(rgswPool) < 2 {
+				rgswPool = append(rgswPool, rgswCt(g))
+			}
+			return rgswPool[int(g.Next()%uint64(len(rgswPool)))]
 		case vPt:
 			pt := bgv.NewPlaintext(bp, level)
 			if g.Next()%2 == 0 {
@@ -154,8 +187,9 @@ func c09BGV(ctx *core.RunCtx, scaleInvariant bool) *c09Scheme {
 			return b
 		}
 	}
-	ev := func(x any) *bgv.Evaluator { return x.(*bgv.Evaluator) }
+	ev := func(x any) *bgv.Evaluator { return x.(*c09Sys).ev.(*bgv.Evaluator) }
 	scal := []int{vCt, vPt, vVec, vU64, vI64, vInt, vBig}
+
 	sc.ops = []c09Op{
 		{name: "Add", op1: scal, deg: degAdd, call: func(e any, a *rlwe.Ciphertext, b any, k int, o *rlwe.Ciphertext) error { return ev(e).Add(a, b, o) }},
 		{name: "Sub", op1: scal, deg: degAdd, call: func(e any, a *rlwe.Ciphertext, b any, k int, o *rlwe.Ciphertext) error { return ev(e).Sub(a, b, o) }},
@@ -187,6 +221,10 @@ func c09BGV(ctx *core.RunCtx, scaleInvariant bool) *c09Scheme {
 				return fmt.Errorf("level 0")
 			}
 			ev(e).DropLevel(a, 1)
+			return nil
+		}},
+		{name: "rgsw.ExternalProduct", op1: []int{vRGSW}, needDeg1: true, needMaxLevel: true, callerSetsMeta: true, deg: degOne, call: func(e any, a *rlwe.Ciphertext, b any, k int, o *rlwe.Ciphertext) error {
+			e.(*c09Sys).rg.ExternalProduct(a, b.(*rgsw.Ciphertext), o)
 			return nil
 		}},
 		{name: "MatchScalesAndLevel", op1: []int{vNone}, accum: true, mutatesOp0: true, deg: degSame, call: func(e any, a *rlwe.Ciphertext, b any, k int, o *rlwe.Ciphertext) error {
@@ -255,6 +293,28 @@ func c09BGV(ctx *core.RunCtx, scaleInvariant bool) *c09Scheme {
 			ctx.Fail("inputs", sc.name+"|Encryptor.Encrypt|plaintext-modified", "Encrypt modified its plaintext")
 			return false
 		}
+		// encrypting into a reused ciphertext (other degree, higher level, arbitrary content and metadata)
+		{
+			dirty := bgv.NewCiphertext(bp, 1+int(g.Next()%2), level+int(g.Next()%uint64(bp.MaxLevel()-level+1)))
+			for i := range dirty.Value {
+				catalog.FillPoly(bp.RingQ().AtLevel(dirty.Level()), dirty.Value[i], g)
+			}
+			dirty.Scale = bp.NewScale(1 + g.Next()%1000)
+			st := c09Exec(func() error { return encr.Encrypt(pt, dirty) })
+			ctx.Count("oracle.encrypt-into-reused-output", 1)
+			if st.kind == 2 {
+				ctx.Fail("status", sc.name+"|Encryptor.Encrypt|dirty-output-panic", "Encrypt into a reused ciphertext of degree %d panicked: %s", dirty.Degree(), st.msg)
+				return false
+			}
+			if st.kind == 0 {
+				got := make([]uint64, len(v))
+				err := enc.Decode(bgv.NewDecryptor(bp, cc.sk).DecryptNew(dirty), got)
+				if err != nil || hashOperand(got) != hashOperand(v) {
+					ctx.Fail("result", sc.name+"|Encryptor.Encrypt|dirty-output", "encrypting into a reused ciphertext (degree %d before the call) does not give an encryption of the plaintext (decode err=%v)", len(dirty.Value)-1, err)
+					return false
+				}
+			}
+		}
 		chh := hashCt(ct)
 		dec := bgv.NewDecryptor(bp, cc.sk)
 		// the receiver held another, possibly higher-level, plaintext before
@@ -287,6 +347,7 @@ type c09CKKSCtx struct {
 	sk     *rlwe.SecretKey
 	pk     *rlwe.PublicKey
 	evk    *rlwe.MemEvaluationKeySet
+	lts    [2]cklt.LinearTransformation // without and with baby-step giant-step
 }
 
 func c09CKKS(ctx *core.RunCtx) *c09Scheme {
@@ -307,8 +368,27 @@ func c09CKKS(ctx *core.RunCtx) *c09Scheme {
 			galEls = append(galEls, p.GaloisElementForComplexConjugation())
 			galEls = append(galEls, p.GaloisElementsForInnerSum(1, 4)...)
 			galEls = append(galEls, p.GaloisElementsForInnerSum(2, 4)...)
+			// two small linear transformations (read-only) and the Galois keys they need
+			slots := p.MaxSlots()
+			diags := make(cklt.Diagonals[complex128])
+			for _, d := range []int{-2, -1, 0, 1, 3} {
+				diags[d] = make([]complex128, slots)
+				for j := range diags[d] {
+					diags[d][j] = complex(float64((j+d+7)%5)/8, float64((j*3+d+5)%3)/16)
+				}
+			}
+			var lts [2]cklt.LinearTransformation
+			for i, bsgs := range []int{-1, 1} {
+				ltp := cklt.Parameters{DiagonalsIndexList: diags.DiagonalsIndexList(), LevelQ: p.MaxLevel(), LevelP: p.MaxLevelP(), Scale: p.DefaultScale(),
+					LogDimensions: p.LogMaxDimensions(), LogBabyStepGiantStepRatio: bsgs}
+				lts[i] = cklt.NewTransformation(p, ltp)
+				if err := cklt.Encode(ckks.NewEncoder(p), diags, lts[i]); err != nil {
+					return err
+				}
+				galEls = append(galEls, lts[i].GaloisElements(p)...)
+			}
 			evk := rlwe.NewMemEvaluationKeySet(kgen.GenRelinearizationKeyNew(sk), kgen.GenGaloisKeysNew(galEls, sk)...)
-			return &c09CKKSCtx{params: p, sk: sk, pk: pk, evk: evk}
+			return &c09CKKSCtx{params: p, sk: sk, pk: pk, evk: evk, lts: lts}
 		})
 		if x, ok := c.(*c09CKKSCtx); ok {
 			cc = x
@@ -324,7 +404,10 @@ func c09CKKS(ctx *core.RunCtx) *c09Scheme {
 	enc := ckks.NewEncoder(cp)
 	encr := ckks.NewEncryptor(cp, cc.pk)
 	sc := &c09Scheme{name: "ckks", params: cp.Parameters}
-	sc.newEval = func() any { return ckks.NewEvaluator(cp, cc.evk) }
+	sc.newEval = func() any {
+		e := ckks.NewEvaluator(cp, cc.evk)
+		return &c09Sys{ev: e, rg: rgsw.NewEvaluator(cp.Parameters, cc.evk), lt: cklt.NewEvaluator(e), poly: ckpoly.NewEvaluator(cp, e)}
+	}
 	sc.newCt = func(deg, level int) *rlwe.Ciphertext { return ckks.NewCiphertext(cp, deg, level) }
 	sc.keyHash = func() uint64 { return hashKeySet(cc.evk) }
 	sc.newScale = func(g *core.Xoshiro) rlwe.Scale { return rlwe.NewScale(float64(1 + g.Next()%(1<<40))) }
@@ -380,8 +463,10 @@ func c09CKKS(ctx *core.RunCtx) *c09Scheme {
 			return new(big.Float).SetPrec(128).SetFloat64(rf(g) * 2)
 		}
 	}
-	ev := func(x any) *ckks.Evaluator { return x.(*ckks.Evaluator) }
+	ev := func(x any) *ckks.Evaluator { return x.(*c09Sys).ev.(*ckks.Evaluator) }
 	scal := []int{vCt, vPt, vVecC, vVec, vC128, vF64, vInt, vU64, vBig, vBigF}
+	pol3 := bignum.NewPolynomial(bignum.Monomial, []float64{0.25, 0.5, -0.125, 0.0625}, nil)
+	polCheb := bignum.NewPolynomial(bignum.Chebyshev, []float64{0.1, 0.4, 0, -0.2, 0, 0.05}, [2]float64{-1, 1})
 	sc.ops = []c09Op{
 		{name: "Add", op1: scal, deg: degAdd, call: func(e any, a *rlwe.Ciphertext, b any, k int, o *rlwe.Ciphertext) error { return ev(e).Add(a, b, o) }},
 		{name: "Sub", op1: scal, deg: degAdd, call: func(e any, a *rlwe.Ciphertext, b any, k int, o *rlwe.Ciphertext) error { return ev(e).Sub(a, b, o) }},
@@ -399,6 +484,25 @@ func c09CKKS(ctx *core.RunCtx) *c09Scheme {
 		{name: "Conjugate", op1: []int{vNone}, deg: degOne, call: func(e any, a *rlwe.Ciphertext, b any, k int, o *rlwe.Ciphertext) error { return ev(e).Conjugate(a, o) }},
 		{name: "InnerSum", op1: []int{vNone}, ks: []int{1, 2}, needDeg1: true, deg: degOne, call: func(e any, a *rlwe.Ciphertext, b any, k int, o *rlwe.Ciphertext) error {
 			return ev(e).InnerSum(a, k, 4, o)
+		}},
+		{name: "lintrans.Evaluate", op1: []int{vNone}, ks: []int{0, 1}, needDeg1: true, deg: degOne, call: func(e any, a *rlwe.Ciphertext, b any, k int, o *rlwe.Ciphertext) error {
+			return e.(*c09Sys).lt.Evaluate(a, cc.lts[k], o)
+		}},
+		{name: "polynomial.Evaluate", op1: []int{vNone}, ks: []int{0, 1}, needDeg1: true, deg: degOne, call: func(e any, a *rlwe.Ciphertext, b any, k int, o *rlwe.Ciphertext) error {
+			var p any = pol3
+			if k == 1 {
+				p = polCheb
+			}
+			res, err := e.(*c09Sys).poly.Evaluate(a, p, cp.DefaultScale())
+			if err != nil {
+				return err
+			}
+			o.Resize(res.Degree(), res.Level())
+			for i := range res.Value {
+				o.Value[i].CopyLvl(res.Level(), res.Value[i])
+			}
+			*o.MetaData = *res.MetaData
+			return nil
 		}},
 		{name: "ScaleUp", op1: []int{vNone}, ks: []int{2, 3, 1024}, deg: degSame, call: func(e any, a *rlwe.Ciphertext, b any, k int, o *rlwe.Ciphertext) error {
 			return ev(e).ScaleUp(a, rlwe.NewScale(k), o)
